@@ -30,7 +30,10 @@ META = dict(
                "this check reports a VIOLATION. Partial for units: the unit class [a-zA-Z%/23*] misses the supported "
                "units °C, °F, µS/cm (C18_full / C18_counterexample / C18_partial, units_not_recognised; known finding "
                "supported-unit-not-recognised). Names start with a letter or '_' (a name that starts with digits and a "
-               "space is indistinguishable from a threshold). Source ranges and the float value are not modelled. "
+               "space is indistinguishable from a threshold). Typed results (node.threshold, tag_value_numeric) are modelled "
+               "as exact decimals and compared with the floats for texts of <= 15 digits; the oracle compares them with "
+               "float(text) always. The separator ': ' is part of the well-formed grammar, but the parser's behaviour on "
+               "other input (e.g. 'Mark:a') is not pinned: disagreements there are notes. Source ranges are not modelled. "
                "CPython re is trusted differentially.",
     technique="Lean 4 proof (deterministic scanner equivalent to the regular expressions, list-splitting lemmas) + "
               "differential correspondence + independent parts oracle",
@@ -68,10 +71,10 @@ def gen_number(rng: random.Random) -> str:
 
 TAGS = ["X", "Run Counter", "Block Time", "A1", "Tag 2", "FT01", "pH", "System State", "a_b", "T 1 2", "Ünit tag", "x.y"]
 TEXT_VALUES = ["Running", "Not Running", "on", "a b c", "e5", "x2", "Ünicode", "A.1", "m-3", "on hold 2",
-               "step 3 of 4", "2 of 3", "0,98", "1st pass", "3-way", "12:30", "1.5.2", "7 up!", "5 µm", "-1 or less",
+               "step 3 of 4", "2 of 3", "0,98", "1st pass", "3-way", "12:30", "1.5.2", "7-up", "5 µm", "-1 or less",
                "2e3 x 4", ".5 to 1", "10 000", "1/2 full"]
 _NUMBER_LIKE = re.compile(r"[+-]?(\d+(\.\d*)?|\.\d+)([eE][+-]?\d+)?\s*[a-zA-Z%/23*]*")
-TEXT_TAILS = [" of 3", ",98", "st pass", "-way", ":30", ".2.1", " up!", " µm", " or less", " x 4", " to 1", " 000", "_a", "(b)"]
+TEXT_TAILS = [" of 3", ",98", "st pass", "-way", ":30", ".2.1", " up", " µm", " or less", " x 4", " to 1", " 000", "_a", "(b)"]
 
 
 def is_text_value(v: str) -> bool:
@@ -82,7 +85,8 @@ def is_text_value(v: str) -> bool:
 
 def gen_text_value(rng: random.Random) -> str:
     if rng.random() < 0.5:
-        return rng.choice(TEXT_VALUES)
+        v = rng.choice(TEXT_VALUES)
+        return v if is_text_value(v) else "2 of 3"
     for _ in range(20):
         v = gen_number(rng) + rng.choice(TEXT_TAILS)
         if is_text_value(v):
@@ -114,7 +118,7 @@ def gen_line(rng: random.Random, units: list[str]) -> dict:
     indent = rng.choice([0, 0, 4, 4, 8, 12, 1, 2, 3, 6, 17])
     thr = None
     if rng.random() < 0.4:
-        thr = rng.choice(["0", "1", "5", "12", "2.5", "10.25", "007", "3.0", "٣", "१२.५"])
+        thr = rng.choice(["0", "1", "5", "12", "2.5", "10.25", "007", "3.0", "٣", "१२.५", "0.1", "2.75", "10.125", "1234567.891"])
     kind = rng.random()
     cond = None
     if kind < 0.45:
@@ -154,18 +158,17 @@ def mutate(rng: random.Random, s: str) -> str:
 # oracle: the parts the generator put in are the parts the parser reports
 
 def cond_failure(case: Any, c, cond: dict) -> Failure | None:
-    got = {"tag": c.tag_name, "op": c.op, "value": c.tag_value, "unit": c.tag_unit}
+    got = {"tag": c.tag_name, "op": c.op, "value": c.tag_value, "unit": c.tag_unit, "numeric": c.tag_value_numeric}
     want = {k: cond[k] for k in ("tag", "op", "value", "unit")}
     text_value = cond["unit"] is None and is_text_value(cond["value"])
-    if text_value:  # a text is not a number
-        got["numeric"], want["numeric"] = c.tag_value_numeric, None
+    # the typed value is the number written in the text; a text is not a number
+    want["numeric"] = None if text_value else float(cond["value"])
     if got == want and not c.error:
         return None
     unit = cond["unit"]
     rhs = cond["text"].split(cond["op"], 1)[1].strip()
-    if unit is not None and not set(unit) <= UNIT_CLASS and not c.error and \
-            {**got, "value": rhs, "unit": None} == {**want, "value": rhs, "unit": None} and \
-            got["value"] == rhs and got["unit"] is None:
+    if unit is not None and not set(unit) <= UNIT_CLASS and not c.error and got["tag"] == want["tag"] and \
+            got["op"] == want["op"] and got["value"] == rhs and got["unit"] is None and got["numeric"] is None:
         key = "supported-unit-not-recognised"  # exactly the recorded shape: number and unit kept together as a text
     elif cond["unit"] is None and not text_value and got["tag"] == want["tag"] and got["op"] == want["op"] \
             and got["unit"] is not None and (got["value"] or "") + got["unit"] == cond["value"]:
@@ -187,10 +190,11 @@ def oracle_line(case: dict) -> Failure | None:
         return Failure("parse-line-raises", case, f"{type(e).__name__}: {e}")
     want = {"indent": case["indent"], "indent_error": case["indent"] % 4 != 0, "threshold": case["thr"] or "",
             "name": case["name"], "argument": case["arg"] or "", "has_argument": case["arg"] is not None,
-            "has_comment": case["comment"] is not None, "comment": case["comment"][1] if case["comment"] else ""}
+            "has_comment": case["comment"] is not None, "comment": case["comment"][1] if case["comment"] else "",
+            "threshold_value": None if case["thr"] is None else float(case["thr"])}
     got = {"indent": node.position.character, "indent_error": bool(node.indent_error), "threshold": node.threshold_part,
            "name": node.instruction_name, "argument": node.arguments, "has_argument": bool(node.has_argument),
-           "has_comment": bool(node.has_comment), "comment": node.comment_part}
+           "has_comment": bool(node.has_comment), "comment": node.comment_part, "threshold_value": node.threshold}
     bad = [k for k in want if want[k] != got[k]]
     if bad:
         return Failure("line-part-mismatch:" + ",".join(bad), case,
@@ -221,8 +225,55 @@ def _uod() -> str:
     return enc_list(UOD)
 
 
-def line_op(line: str, fx: str = "1") -> list[str]:
-    return [f"line\t{fx}\t{_uod()}\t{enc(line)}"]
+def line_op(line: str, fx: str = "1", parts: bool = False) -> list[str]:
+    """parts=True: only the parts the property speaks about (no raw regex groups); the error-line flag is 0 (as is)"""
+    return [f"{'linep' if parts else 'line'}\t{fx}\t0\t{_uod()}\t{enc(line)}"]
+
+
+_NUM = r"[+-]?(?:\d+(?:\.\d*)?|\.\d+)(?:[eE][+-]?\d+)?"
+_RHS_NUM = re.compile(_NUM)
+_RHS_NUM_UNIT = re.compile("(" + _NUM + r")\s+([a-zA-Z%/23*]+)")
+
+
+def classify_rhs(rhs: str) -> dict | None:
+    """Independent reading of a right-hand side: number / number ws+ unit / text; None = not well-formed
+    (empty, '5m' without white space, operator characters …) — the property says nothing about those."""
+    if _RHS_NUM.fullmatch(rhs):
+        return {"value": rhs, "unit": None}
+    m = _RHS_NUM_UNIT.fullmatch(rhs)
+    if m:
+        return {"value": m.group(1), "unit": m.group(2)}
+    if is_text_value(rhs):
+        return {"value": rhs, "unit": None}
+    return None
+
+
+def illformed_streams(ctx: Check, streams: list) -> None:
+    """Model/implementation agreement on input the property does not speak about (near-misses, ill-formed
+    right-hand sides, raw regex groups). A disagreement there is a note in the evidence, not a violation: the
+    parser is free to become more tolerant (e.g. accept 'Mark:a') as long as well-formed lines decompose as
+    before. `streams` = [(name, cases, lines, impl)]; one driver run for all of them."""
+    all_lines, io = [], []
+    for name, cases, lines, impl in streams:
+        for c in cases:
+            all_lines.append(lines(c))
+            try:
+                io.append([str(x) for x in impl(c)])
+            except Exception as e:
+                io.append([f"err:{type(e).__name__}"])
+    mo = drive(DRIVER, all_lines)
+    k = 0
+    for name, cases, lines, impl in streams:
+        bad = [(c, a, b) for c, a, b in zip(cases, io[k:k + len(cases)], mo[k:k + len(cases)]) if a != b]
+        k += len(cases)
+        ctx.evaluations += len(cases)
+        rec = {"cases": len(cases), "disagreements": len(bad)}
+        if bad:
+            c, a, b = bad[0]
+            rec["first"] = {"case": c, "impl": a[:1], "model": b[:1]}
+            ctx.notes.append(f"stream {name} (input outside the property's grammar): model and implementation differ "
+                             f"on {len(bad)} of {len(cases)} cases, e.g. {c!r} — not a violation")
+        ctx.extra.setdefault("illformed_input_agreement", {})[name] = rec
 
 
 def cond_op(ops: list[str], part: str, fx: str = "1") -> list[str]:
@@ -243,7 +294,10 @@ def run(ctx: Check) -> int:
                 "supported unit, numbers with sign/fraction/exponent (many ending in 2 or 3), text values with spaces including texts "
                 "that begin with a number ('2 of 3', '0,98', '1st pass': anything that cannot be read as number + unit). Near-misses: "
                 "1-2 character mutations of such lines and arbitrary unicode lines (model/implementation agreement only). "
-                "Right-hand sides: all strings up to length 4/6 over {5,2,3,.,e,+,-,m,space}. Non-trivial = line has at "
+                "Right-hand sides: all strings up to length 4/6 over {5,2,3,.,e,+,-,m,space}, split by an independent reading into "
+                "well-formed (number / number ws unit / text: deciding, with oracle) and ill-formed (agreement noted only). "
+                "Typed results (threshold, tag_value_numeric) are observed as exact fractions and must equal the number "
+                "written in the text. Near-miss / ill-formed input and raw regex groups are compared for the record only. Non-trivial = line has at "
                 "least two optional parts, or the condition has a unit or a multi-digit number.")
 
     corpus = load_corpus("C18")
@@ -267,10 +321,16 @@ def run(ctx: Check) -> int:
     near = [{"line": mutate(rng, rng.choice(wf)["line"])} for _ in range(ctx.n(1000, 50000))] + \
            [{"line": pc.rand_unicode_line(rng, 16).replace("\n", "")} for _ in range(ctx.n(500, 30000))]
     alpha = ["5", "2", "3", ".", "e", "+", "-", "m", " "]
-    rhs = []
+    rhs_wf, rhs_ill = [], []
     for k in range(0, ctx.n(4, 6) + 1):
         for t in itertools.product(alpha, repeat=k):
-            rhs.append({"ops": COND_OPS, "part": "X >" + "".join(t)})
+            part = "X >" + "".join(t)
+            cl = classify_rhs("".join(t).strip())
+            if cl is None:
+                rhs_ill.append({"ops": COND_OPS, "part": part})
+            else:
+                rhs_wf.append({"ops": COND_OPS, "part": part,
+                               "cond": {"tag": "X", "op": ">", "value": cl["value"], "unit": cl["unit"], "text": part}})
     near_cond = [{"ops": rng.choice([COND_OPS, ["="]]),
                   "part": pc.rand_word(rng, " ab<>=!0123456789.eE+-mL/%2*#", 0, 12)} for _ in range(ctx.n(500, 30000))]
 
@@ -280,23 +340,29 @@ def run(ctx: Check) -> int:
         return sum(1 for k in ("thr", "arg", "comment") if c.get(k) is not None) >= 2
 
     lo = lambda c: [pc.observe_line(c["line"])]  # noqa: E731
+    lp = lambda c: [pc.observe_line(c["line"], raw=False)]  # noqa: E731
     co = lambda c: [pc.observe_cond_direct(c["ops"], c["part"])]  # noqa: E731
-    if corpus:
-        ctx.correspond("corpus", DRIVER, corpus, lambda c: line_op(c["line"]), lo)
-    _, wf_model = ctx.correspond("line-wellformed", DRIVER, wf, lambda c: line_op(c["line"]), lo, nontrivial=nontrivial_line)
-    _, cond_model = ctx.correspond("cond-wellformed", DRIVER, conds, lambda c: cond_op(c["ops"], c["part"]), co,
+    wf_corpus = [c for c in corpus if "indent" in c]
+    # deciding streams: well-formed input only, the parts (incl. the typed values) only
+    wf_all = wf_corpus + wf
+    _, wf_model = ctx.correspond("line-wellformed", DRIVER, wf_all, lambda c: line_op(c["line"], parts=True), lp,
+                                 nontrivial=nontrivial_line)
+    conds_all = conds + rhs_wf
+    _, cond_model = ctx.correspond("cond-wellformed", DRIVER, conds_all, lambda c: cond_op(c["ops"], c["part"]), co,
                                    nontrivial=lambda c, o: c["cond"]["unit"] is not None)
-    ctx.correspond("line-nearmiss", DRIVER, near, lambda c: line_op(c["line"]), lo,
-                   nontrivial=lambda c, o: not o[0].startswith(("BlankNode", "CommentNode")))
-    ctx.correspond("rhs-exhaustive", DRIVER, rhs, lambda c: cond_op(c["ops"], c["part"]), co)
-    ctx.correspond("cond-nearmiss", DRIVER, near_cond, lambda c: cond_op(c["ops"], c["part"]), co)
+    # everything else: agreement is recorded, a disagreement is a note
+    illformed_streams(ctx, [
+        ("corpus-nearmiss", [c for c in corpus if "indent" not in c], lambda c: line_op(c["line"]), lo),
+        ("line-raw-groups", wf[: ctx.n(500, 20000)], lambda c: line_op(c["line"]), lo),
+        ("line-nearmiss", near, lambda c: line_op(c["line"]), lo),
+        ("rhs-exhaustive-illformed", rhs_ill, lambda c: cond_op(c["ops"], c["part"]), co),
+        ("cond-nearmiss", near_cond, lambda c: cond_op(c["ops"], c["part"]), co)])
     # self-test: the regular expression as it was (number not atomic) must be visible on the generated conditions
     if cond_model:
-        ctx.selftest("cond-wellformed", DRIVER, conds, lambda c: cond_op(c["ops"], c["part"], "0"), cond_model)
+        ctx.selftest("cond-wellformed", DRIVER, conds, lambda c: cond_op(c["ops"], c["part"], "0"), cond_model[: len(conds)])
     # oracle
-    ctx.monitor([c for c in corpus if "indent" in c], oracle_line)
-    ctx.monitor(wf, oracle_line)
-    ctx.monitor(conds, oracle_cond)
+    ctx.monitor(wf_all, oracle_line)
+    ctx.monitor(conds_all, oracle_cond)
     for c in wf:
         ctx.count("line:" + ("".join(ch for ch, k in (("T", "thr"), ("A", "arg"), ("C", "comment"), ("K", "cond"))
                                      if c.get(k) is not None) or "name-only"))
@@ -309,7 +375,9 @@ def run(ctx: Check) -> int:
                   if u is None and is_text_value(v) else "value:number" + ("-ending-2-or-3" if v[-1] in "23" else ""))
         ctx.count("unit:none" if u is None else "unit:outside-class" if not set(u) <= UNIT_CLASS else "unit:in-class")
     ctx.extra["supported_units"] = units
-    ctx.extra["exhaustive_scope"] = f"right-hand sides: all {len(rhs)} strings of length <= {ctx.n(4, 6)} over {alpha}"
+    ctx.extra["exhaustive_scope"] = (f"right-hand sides: all {len(rhs_wf) + len(rhs_ill)} strings of length <= {ctx.n(4, 6)} "
+                                     f"over {alpha}: {len(rhs_wf)} well-formed (number / number unit / text; deciding + "
+                                     f"oracle), {len(rhs_ill)} ill-formed (agreement noted only)")
     ctx.exhaustive = False
     ctx.assumptions = ["lines contain no line-boundary character (they come from str.splitlines)",
                        "a well-formed instruction name starts with a letter or '_' and is trimmed; argument and text "
